@@ -1,10 +1,294 @@
-import CoclsModel.Chain
-/-! # C02 — property theorems (placeholder while the invariant proofs are being written) -/
+import CoclsModel.ChainProofs
+/-!
+# C02 — no lost, early or duplicate wake-up of a future's waiters
+
+Same model and quantifiers as C01 (`Chain.lean`; every configuration `c : Cfg` — any number of waiters of every kind:
+coroutine, blocking thread, callback, `has_value()` awaiter, against any number of resolver calls and destructor
+agents — and every schedule: `Reachable c s` = `∃ sched, s = run c (init c) sched`).
+
+Ghost fields read by the statements: `subscribed w` (w's CAS push succeeded), `woken w` (number of times the walker
+released `w`: `flag.store(true)` for a blocking waiter, resume / callback invocation otherwise), `observed w` (number
+of times the result was read for `w`: by `w` itself, or inline by the walker that resumed it); `Ev.obs w o` is that
+read and its value.
+-/
 namespace Cocls.Chain
 
-/-- a losing call leaves no trace: the only thing a failed claim changes is the caller's own program counter -/
-theorem c02_placeholder_loser (c : Cfg) (s : State) (t : Nat) (hpc : s.pc t = Pc.rClaim) (hown : s.owner = false) :
-    (astep c s t).1 = setPc s t Pc.rFinLost := by
-  unfold astep; simp [hpc, hown]
+/-- witness configuration: a value resolver, one waiter of every kind, the destructor -/
+def c02Cfg : Cfg :=
+  { n := 6
+    kind := fun i => match i with
+      | 0 => Kind.res (RK.value 7)
+      | 1 => Kind.wait WK.coro
+      | 2 => Kind.wait WK.sync
+      | 3 => Kind.wait WK.cb
+      | 4 => Kind.wait WK.hasv
+      | _ => Kind.dtor }
+
+/-- waiters 1, 2, 3 subscribe (2 and 3 each retry their CAS once), 2 blocks in `wait()`, the resolver claims, sets and
+exchanges, waiter 4 comes late and finds the future ready, the walker releases the chain, everybody finishes -/
+def c02Sched : List Nat := [1, 1, 2, 2, 3, 2, 3, 3, 2, 0, 0, 4, 0, 0, 4, 2, 2, 1, 3, 5, 5]
+
+/-! ## at most once -/
+
+/-- **No duplicate wake-up.**  In every reachable state every waiter has been released at most once, and only if it
+had subscribed. -/
+theorem c02_woken_at_most_once (c : Cfg) (s : State) (hr : Reachable c s) (w : Nat) :
+    s.woken w ≤ 1 ∧ (1 ≤ s.woken w → s.subscribed w = true) := by
+  have h := hr.inv
+  rcases slot_cases s with hs | ⟨l, hl⟩
+  · obtain ⟨x, hx, _, _⟩ := h.ready_phase hs
+    have := h.readyW hs x hx w
+    split at this
+    · exact ⟨by omega, fun _ => by assumption⟩
+    · exact ⟨by omega, fun _ => by omega⟩
+  · have := ((h.chain_phase l hl).2.1 w).1
+    exact ⟨by omega, fun _ => by omega⟩
+
+/-- **The result is read at most once per waiter**, and only for waiter agents of the configuration. -/
+theorem c02_observed_at_most_once (c : Cfg) (s : State) (hr : Reachable c s) (w : Nat) :
+    s.observed w ≤ 1 ∧ (1 ≤ s.observed w → isW c w = true) := by
+  have h := hr.inv
+  rcases slot_cases s with hs | ⟨l, hl⟩
+  · obtain ⟨x, hx, _, _⟩ := h.ready_phase hs
+    have := h.readyO hs x hx w
+    by_cases hw : isW c w = true
+    · rw [if_pos hw] at this; exact ⟨by omega, fun _ => hw⟩
+    · rw [if_neg hw] at this; exact ⟨by omega, fun _ => by omega⟩
+  · have := h.chainO l hl w
+    by_cases hw : isW c w = true
+    · rw [if_pos hw] at this; exact ⟨by omega, fun _ => hw⟩
+    · rw [if_neg hw] at this; exact ⟨by omega, fun _ => by omega⟩
+
+/-- the same at trace level: in the event trace of any schedule there is at most one result read per waiter -/
+theorem c02_observed_at_most_once_trace (c : Cfg) (sched : List Nat) (w : Nat) :
+    (runEv c (init c) sched).2.countP (isObsOf w) ≤ 1 := by
+  rw [obs_count]; exact (c02_observed_at_most_once c _ (reachable_run c sched) w).1
+
+example : (run c02Cfg (init c02Cfg) c02Sched).woken 1 = 1 ∧ (run c02Cfg (init c02Cfg) c02Sched).woken 2 = 1
+    ∧ (run c02Cfg (init c02Cfg) c02Sched).woken 3 = 1 ∧ (run c02Cfg (init c02Cfg) c02Sched).woken 4 = 0 := by decide
+example : (List.range 6).map (run c02Cfg (init c02Cfg) c02Sched).observed = [0, 1, 1, 1, 1, 0] := by decide
+
+/-! ## never early -/
+
+/-- **Never early.**  A waiter is released (and a blocking waiter's flag set, and a waiter gets to its result read)
+only when the slot is already `ready` — hence (`c01_result_is_winners`, `c01_stable`) the result is complete and
+final; and no result read emitted by any step from a reachable state ever sees "not ready". -/
+theorem c02_never_early (c : Cfg) (s : State) (hr : Reachable c s) :
+    (∀ w, 1 ≤ s.woken w → s.slot = Slot.ready) ∧
+    (∀ w, s.flag w = true → s.slot = Slot.ready) ∧
+    (∀ w, s.pc w = Pc.wRead ∨ (∃ sn, s.pc w = Pc.wRead2 sn) → s.slot = Slot.ready) ∧
+    (∀ t w o, Ev.obs w o ∈ (astep c s t).2 → s.slot = Slot.ready ∧ o ≠ Obs.notready) := by
+  have h := hr.inv
+  refine ⟨?_, ?_, ?_, ?_⟩
+  · intro w hw
+    rcases slot_cases s with hs | ⟨l, hl⟩
+    · exact hs
+    · have := ((h.chain_phase l hl).2.1 w).1; omega
+  · intro w hw
+    rcases slot_cases s with hs | ⟨l, hl⟩
+    · exact hs
+    · have := ((h.chain_phase l hl).2.1 w).2; rw [hw] at this; cases this
+  · intro w hw
+    rcases hw with hw | ⟨sn, hw⟩
+    · exact (h.reader w).1 hw
+    · exact ((h.reader w).2 sn hw).2
+  · intro t w o he
+    obtain ⟨hs, ho, _, _⟩ := astep_obs c t s h w o he
+    refine ⟨hs, ?_⟩
+    rw [ho]; unfold obsOf
+    cases wkOf c w <;> simp <;> split <;> simp
+
+example : (run c02Cfg (init c02Cfg) (c02Sched.take 9)).slot ≠ Slot.ready
+    ∧ (List.range 6).map (run c02Cfg (init c02Cfg) (c02Sched.take 9)).woken = [0, 0, 0, 0, 0, 0] := by decide
+
+/-! ## the released waiter sees the complete result -/
+
+/-- **Sees the result.**  Every result read `Ev.obs w o` emitted by any step from a reachable state — whether `w` took
+the ready path, the refused-subscribe path, was woken from `wait()`, or is a callback / coroutine resumed inline by the
+walker — is a read by a waiter agent `w` of the configuration that had not read before, happens with the slot `ready`,
+and returns exactly the value of the future's final result (`obsOf` of the payload, which equals the winner's payload by
+`c01_result_is_winners`), where "final" is literal: the same in every state reached by any continuation of the
+schedule. -/
+theorem c02_sees_result (c : Cfg) (s : State) (hr : Reachable c s) (t w : Nat) (o : Obs)
+    (he : Ev.obs w o ∈ (astep c s t).2) :
+    isW c w = true ∧ s.observed w = 0 ∧ s.slot = Slot.ready ∧
+    ∀ sched', o = obsOf (run c s sched') (wkOf c w) Seen.ready := by
+  obtain ⟨hs, ho, hw, h0⟩ := astep_obs c t s hr.inv w o he
+  refine ⟨hw, h0, hs, ?_⟩
+  intro sched'
+  rw [ho]
+  exact (obsOf_congr _ _ (run_stable c s hr.inv hs sched').2 _ _).symm
+
+example : Ev.obs 1 (Obs.val 7) ∈ (runEv c02Cfg (init c02Cfg) c02Sched).2
+    ∧ Ev.obs 2 (Obs.val 7) ∈ (runEv c02Cfg (init c02Cfg) c02Sched).2
+    ∧ Ev.obs 3 (Obs.val 7) ∈ (runEv c02Cfg (init c02Cfg) c02Sched).2
+    ∧ Ev.obs 4 (Obs.hv true) ∈ (runEv c02Cfg (init c02Cfg) c02Sched).2 := by decide
+
+/-- **Sees the result, whole-run form.**  For every schedule: every result read that occurs anywhere in the trace of
+the run returns the value of the result as it stands at the *end* of that run, and is never "not ready". -/
+theorem c02_sees_result_trace (c : Cfg) (sched : List Nat) (w : Nat) (o : Obs)
+    (he : Ev.obs w o ∈ (runEv c (init c) sched).2) :
+    (run c (init c) sched).slot = Slot.ready ∧ o = obsOf (run c (init c) sched) (wkOf c w) Seen.ready
+      ∧ o ≠ Obs.notready := by
+  obtain ⟨pre, t, post, hsched, _, hmem⟩ := runEv_mem c sched _ he
+  have hr := reachable_run c pre
+  obtain ⟨_, _, hs, hfin⟩ := c02_sees_result c _ hr t w o hmem
+  have hrun : run c (init c) sched = run c (run c (init c) pre) (t :: post) := by rw [hsched, run_append]
+  refine ⟨?_, ?_, ((c02_never_early c _ hr).2.2.2 t w o hmem).2⟩
+  · rw [hrun]; exact (run_stable c _ hr.inv hs _).1
+  · rw [hrun]; exact hfin _
+
+example : (runEv c02Cfg (init c02Cfg) c02Sched).2.countP (isObsOf 3) = 1 := by decide
+
+/-! ## no lost wake-up -/
+
+/-- **No lost wake-up.**  In every reachable state in which the resolving agent (the winning call, or the destructor
+if it resolved) has finished: the slot is `ready`, every subscribed waiter has been released exactly once, and every
+waiter agent either has had its result read exactly once or is itself still on its way to read it (and then it is
+not blocked: its next step is enabled). -/
+theorem c02_no_lost_wakeup (c : Cfg) (s : State) (hr : Reachable c s) (r : Nat) (hwin : s.winner = some r)
+    (hdone : s.pc r = Pc.done) :
+    s.slot = Slot.ready ∧
+    (∀ w, s.subscribed w = true → s.woken w = 1) ∧
+    (∀ w, isW c w = true → s.observed w = 1 ∨ (s.observed w = 0 ∧ s.pc w ≠ Pc.done ∧ enabled c s w = true)) := by
+  have h := hr.inv
+  have hs : s.slot = Slot.ready := by
+    rcases slot_cases s with hs | ⟨l, hl⟩
+    · exact hs
+    · have := (h.chain_phase l hl).2.2 r hwin
+      simp [hdone, isResolve] at this
+  refine ⟨hs, ?_, ?_⟩
+  · intro w hw
+    have := h.readyW hs r hwin w
+    simpa [hdone, actsOf, hw] using this
+  · intro w hw
+    have hO := h.readyO hs r hwin w
+    have hW := h.readyW hs r hwin w
+    simp only [hdone, actsOf, cntO_nil, cntW_nil, hw, if_true, Nat.add_zero] at hO hW
+    by_cases ho : s.observed w = 1
+    · exact Or.inl ho
+    · right
+      have hp : selfP (s.pc w) = 1 := by omega
+      refine ⟨by omega, ?_, ?_⟩
+      · intro hd; rw [hd] at hp; simp [selfP] at hp
+      · unfold enabled
+        split <;> simp_all [selfP]
+        · -- a blocked waiter: it is subscribed, hence released, hence its flag is set
+          rename_i hpc
+          have hsub := h.parked w (Or.inr (Or.inl hpc))
+          have hk := h.kindpc w
+          rw [hpc] at hk
+          simp only [pcOK] at hk
+          rw [hsub] at hW
+          exact (h.flag_iff w).2 ⟨hk.2, by simp at hW; omega⟩
+
+/-- **Exactly once at quiescence.**  When all agents have finished (and there is a resolving party), every waiter agent
+of the configuration has had its result read exactly once, every subscribed waiter was released exactly once, and
+a waiter that did not subscribe (it found the future ready) was never "released". -/
+theorem c02_exactly_once_quiescent (c : Cfg) (s : State) (hr : Reachable c s) (hwf : WF c) (hq : Quiescent c s) (w : Nat)
+    (hw : isW c w = true) :
+    s.observed w = 1 ∧ s.woken w = if s.subscribed w = true then 1 else 0 := by
+  obtain ⟨t, ht, hk⟩ := hwf
+  have hall := hq.all hr.inv
+  obtain ⟨_, hs, r, hr'⟩ := quiescent_ready c s hr.inv t ht hk hall
+  have hO := hr.inv.readyO hs r hr' w
+  have hW := hr.inv.readyW hs r hr' w
+  simp only [hall, actsOf, selfP, cntO_nil, cntW_nil, hw, if_true, Nat.add_zero] at hO hW
+  exact ⟨hO, hW⟩
+
+example : WF c02Cfg ∧ Quiescent c02Cfg (run c02Cfg (init c02Cfg) c02Sched) := by decide
+example : (List.range 6).map (run c02Cfg (init c02Cfg) c02Sched).subscribed = [false, true, true, true, false, false] := by decide
+/-- the hypothesis of `c02_no_lost_wakeup` in a non-quiescent state: the walker has finished, waiter 2 (blocking) not yet -/
+example : (run c02Cfg (init c02Cfg) (c02Sched.take 14)).winner = some 0
+    ∧ (run c02Cfg (init c02Cfg) (c02Sched.take 14)).pc 0 = Pc.done
+    ∧ (run c02Cfg (init c02Cfg) (c02Sched.take 14)).pc 2 = Pc.wBlocked
+    ∧ enabled c02Cfg (run c02Cfg (init c02Cfg) (c02Sched.take 14)) 2 = true := by decide
+
+/-- **Not stuck.**  With a resolving party in the configuration, a reachable state in which no agent is enabled is a
+state in which every agent has finished: there is no deadlock and no waiter is left suspended. -/
+theorem c02_not_stuck (c : Cfg) (s : State) (hr : Reachable c s) (hwf : WF c)
+    (hstuck : ∀ t, t < c.n → enabled c s t = false) : ∀ t, s.pc t = Pc.done := by
+  obtain ⟨r, hr', hk⟩ := hwf
+  apply not_stuck c s hr.inv r hr' hk
+  intro t
+  by_cases ht : t < c.n
+  · exact hstuck t ht
+  · have := hr.inv.range t (by omega)
+    simp [enabled, this]
+
+/-- the hypothesis is satisfiable: at the end of `c02Sched` nobody is enabled -/
+example : ∀ t, t < c02Cfg.n → enabled c02Cfg (run c02Cfg (init c02Cfg) c02Sched) t = false := by decide
+
+/-- without a resolving party a blocking waiter does hang (so `WF` cannot be dropped) -/
+example : let c : Cfg := { n := 1, kind := fun _ => Kind.wait WK.sync }
+    (run c (init c) [0, 0, 0]).pc 0 = Pc.wBlocked ∧ enabled c (run c (init c) [0, 0, 0]) 0 = false := by decide
+
+/-! ## shape of the chain -/
+
+/-- **Chain shape (before the exchange).**  While the slot holds a chain `l`: `l` has no duplicates; its members are
+exactly the subscribed waiters; each of them is a waiter agent that has not been released and is parked — a blocking
+waiter in `flag.wait`, any other kind returned from `await_suspend` / `subscribe`. -/
+theorem c02_chain_shape (c : Cfg) (s : State) (hr : Reachable c s) (l : List Nat) (hl : s.slot = Slot.chain l) :
+    l.Nodup ∧ (∀ x, x ∈ l ↔ s.subscribed x = true) ∧
+    ∀ x, x ∈ l → isW c x = true ∧ s.woken x = 0 ∧
+      (if wkOf c x = WK.sync then s.pc x = Pc.wWait ∨ s.pc x = Pc.wBlocked
+       else s.pc x = Pc.wFinParked ∨ s.pc x = Pc.done) := by
+  have h := hr.inv
+  have hmem : ∀ x, x ∈ l ↔ s.subscribed x = true := by
+    intro x
+    have := h.chainW l hl x
+    rw [← List.count_pos_iff]
+    split at this <;> simp_all
+  refine ⟨?_, hmem, ?_⟩
+  · rw [List.nodup_iff_count]
+    intro x; have := h.chainW l hl x; split at this <;> omega
+  · intro x hx
+    have hsub := (hmem x).1 hx
+    obtain ⟨hw, hpc⟩ := h.sub x hsub
+    have hfl := ((h.chain_phase l hl).2.1 x)
+    refine ⟨hw, hfl.1, ?_⟩
+    split
+    · rename_i hk
+      simp only [hk, if_true, hfl.2] at hpc
+      rcases hpc with hpc | hpc | hpc
+      · exact Or.inl hpc
+      · exact Or.inr hpc
+      · simp at hpc
+    · rename_i hk
+      simpa only [hk, if_false] using hpc
+
+/-- **Chain shape (after the exchange).**  While the winner walks the detached chain with remaining actions `acts`: the
+subscribed waiters not yet released are exactly the targets of the remaining `store` / `wake` actions, each occurring
+once; `store` targets are blocking waiters, `wake` targets are not; and nobody can subscribe any more (the slot is `ready`). -/
+theorem c02_walk_shape (c : Cfg) (s : State) (hr : Reachable c s) (t : Nat) (dt : Bool) (acts : List Act)
+    (hpc : s.pc t = Pc.rRun dt acts) :
+    s.slot = Slot.ready ∧
+    (∀ x, (s.subscribed x = true ∧ s.woken x = 0) ↔ (Act.store x ∈ acts ∨ Act.wake x ∈ acts)) ∧
+    (∀ x, cntW x acts ≤ 1) ∧
+    (∀ x, Act.store x ∈ acts → wkOf c x = WK.sync) ∧ (∀ x, Act.wake x ∈ acts → wkOf c x ≠ WK.sync) := by
+  have h := hr.inv
+  obtain ⟨hs, hw⟩ := ready_of_run c t s h dt acts hpc
+  have hW := fun x => h.readyW hs t hw x
+  simp only [hpc, actsOf] at hW
+  have hok := h.actsok t
+  rw [hpc] at hok
+  simp only [actsOf] at hok
+  rw [actsOK_iff] at hok
+  refine ⟨hs, ?_, ?_, ?_, ?_⟩
+  · intro x
+    rw [← cntW_pos_iff]
+    have := hW x
+    split at this
+    · rename_i hsub; simp only [hsub, true_and]; omega
+    · rename_i hsub
+      constructor
+      · intro h1; exact absurd h1.1 hsub
+      · intro h1; omega
+  · intro x; have := hW x; split at this <;> omega
+  · intro x hx; exact hok _ hx
+  · intro x hx; exact hok _ hx
+
+example : (run c02Cfg (init c02Cfg) (c02Sched.take 8)).slot = Slot.chain [3, 2, 1] := by decide
+example : (run c02Cfg (init c02Cfg) (c02Sched.take 11)).pc 0 = Pc.rRun false [Act.wake 3, Act.store 2, Act.wake 1] := by decide
 
 end Cocls.Chain
